@@ -96,6 +96,21 @@ fn one<X: Sx, Y: Sx>(ctx: &Ctx, idx: u64, l: usize, hdr_class: usize, msg_class:
             m[i][b / 8] ^= 1 << (b % 8);
             try_msgs("msg-bitflip", format!("{i}"), m);
         }
+        for (nm, which) in [("msg-first-bit", 0usize), ("msg-last-bit", 1)] {
+            let mut m = h.msgs.clone();
+            if let Some(len) = Some(m[i].len()).filter(|l| *l > 0) {
+                if which == 0 { m[i][0] ^= 0x80 } else { m[i][len - 1] ^= 0x01 }
+                try_msgs(nm, format!("{i}"), m);
+            }
+        }
+        let mut m = h.msgs.clone();
+        if m[i].len() > 1 {
+            m[i].pop();
+            try_msgs("msg-truncated", format!("{i}"), m);
+        }
+        let mut m = h.msgs.clone();
+        m[i].insert(0, 0);
+        try_msgs("msg-zero-prefixed", format!("{i}"), m);
         let mut m = h.msgs.clone();
         m[i] = Vec::new();
         try_msgs("msg-emptied", format!("{i}"), m);
